@@ -8,7 +8,7 @@
     reachable from the empty tree by SOME interleaving of the calls [ops]
     (every schedule, no bound on the number of threads or steps). *)
 From Gnmi Require Import Base.Prelude CTree.CTreeModel CTree.CTreeCheck CTree.CTreeConc
-  CTree.CTreeConcProofs CTree.CTreeConcLin CTree.LinCheck CTree.C10Check.
+  CTree.CTreeConcProofs CTree.CTreeConcLin CTree.CTreeConcAbs CTree.LinCheck CTree.C10Check.
 
 (** lock coupling: a tree operation that holds any lock holds the root lock *)
 Theorem C10_lock_coupling :
@@ -146,6 +146,112 @@ Theorem C10_add_writes_current_node :
     top t = CAdd p v -> tpc t = PAddTCrit t0 v' -> resolve (hp s) 0 p = Some t0.
 Proof. exact add_writes_current_node. Qed.
 Print Assumptions C10_add_writes_current_node.
+
+(** ** the abstraction [absf h p] = the value stored at path p, ignoring locks *)
+
+(** every reachable heap of the current code is a tree: unique child names,
+    one parent per node -- hence every node has exactly one path *)
+Theorem C10_tree_shape :
+  forall ops s, forallb patched_op ops = true -> reach ops s -> tree_shape (hp s).
+Proof. intros ops s Q R. exact (proj2 (proj2 (reach_TInv ops s Q R))). Qed.
+Print Assumptions C10_tree_shape.
+
+(** what ONE step does to the abstraction, for ALL programs of the current code:
+    nothing; or it is the write step of Add(p,v) and the content becomes
+    [upd content p v]; or Leaf.Update through a handle; or a step of Delete,
+    which only removes *)
+Theorem C10_step_abs_effect :
+  forall ops s i s' t,
+    forallb patched_op ops = true -> reach ops s ->
+    step s i = Some s' -> nth_error (thr s) i = Some t ->
+    abs_effect (hp s) (hp s') t.
+Proof.
+  intros ops s i s' t Q R. exact (step_abs_effect s i s' t (reach_TInv ops s Q R) (reach_val_ok ops s R)).
+Qed.
+Print Assumptions C10_step_abs_effect.
+
+(** linearization points, answers included (linearizable_point_ops, proved parts) *)
+Theorem C10_add_success_point :
+  forall ops s i s' t p v t0,
+    forallb patched_op ops = true -> reach ops s ->
+    nth_error (thr s) i = Some t -> top t = CAdd p v -> tpc t = PAddTCrit t0 v ->
+    is_branch_c (get_cont (hp s) t0) = false -> step s i = Some s' ->
+    conflict_free (absf (hp s)) p /\ (forall q, absf (hp s') q = upd (absf (hp s)) p v q).
+Proof. exact add_success_point. Qed.
+Print Assumptions C10_add_success_point.
+
+Theorem C10_add_failure_point_leaf_above :
+  forall ops s i t p v t0 k r v',
+    reach ops s -> nth_error (thr s) i = Some t -> top t = CAdd p v ->
+    (tpc t = PAddIRead t0 k r v' \/ tpc t = PAddSlow t0 k r v') ->
+    (exists w, get_cont (hp s) t0 = CLeaf w) ->
+    exists q, strict_prefix q p = true /\ absf (hp s) q <> None.
+Proof. exact add_failure_point_leaf_above. Qed.
+Print Assumptions C10_add_failure_point_leaf_above.
+
+Theorem C10_add_failure_point_branch_at :
+  forall ops s i t p v t0 v' cs,
+    forallb quiet_op ops = true -> reach ops s ->
+    nth_error (thr s) i = Some t -> top t = CAdd p v -> tpc t = PAddTCrit t0 v' ->
+    get_cont (hp s) t0 = CBranch cs ->
+    exists q, strict_prefix p q = true /\ absf (hp s) q <> None.
+Proof. exact add_failure_point_branch_at. Qed.
+Print Assumptions C10_add_failure_point_branch_at.
+
+Theorem C10_get_hit_point :
+  forall ops s i t p n,
+    forallb quiet_op ops = true -> reach ops s ->
+    nth_error (thr s) i = Some t -> top t = CGetVal p -> tpc t = PHValRead n ->
+    exists s', step s i = Some s' /\
+               nth_error (thr s') i = Some (TH (top t) (PHRel (XVal (absf (hp s) p))) (held t)) /\
+               hp s' = hp s.
+Proof. exact get_hit_point. Qed.
+Print Assumptions C10_get_hit_point.
+
+Theorem C10_get_miss_point :
+  forall ops s i t p t0 k r,
+    reach ops s -> nth_error (thr s) i = Some t -> top t = CGetVal p -> tpc t = PGetRead t0 (k :: r) ->
+    match get_cont (hp s) t0 with CBranch cs => assoc k cs = None | _ => True end ->
+    absf (hp s) p = None.
+Proof. exact get_miss_point. Qed.
+Print Assumptions C10_get_miss_point.
+
+(** the content is, at every moment, the replay of the write events in order
+    (programs of Add / GetLeafValue / Query / handle reads) *)
+Theorem C10_content_is_log :
+  forall ops s log,
+    forallb quiet_op ops = true -> reach_log ops s log ->
+    forall q, absf (hp s) q = apply_log log q.
+Proof. exact content_is_log. Qed.
+Print Assumptions C10_content_is_log.
+
+(** quiescent serializability for that fragment (in fact at every reachable
+    state): the content equals the sequential application of distinct Add calls
+    of the program, among them every Add that reported success *)
+Theorem C10_quiescent_serializable_partial :
+  forall ops s,
+    forallb quiet_op ops = true -> reach ops s ->
+    exists order : list (nat * path * Z),
+      NoDup (map (fun e => fst (fst e)) order) /\
+      (forall i p v, In (i, p, v) order -> nth_error ops i = Some (CAdd p v)) /\
+      (forall i t p v, nth_error (thr s) i = Some t -> nth_error ops i = Some (CAdd p v) ->
+                       tpc t = PDone (XAdd true) -> In (i, p, v) order) /\
+      (forall q, absf (hp s) q = apply_log order q).
+Proof. exact quiescent_serializable_adds. Qed.
+Print Assumptions C10_quiescent_serializable_partial.
+
+(** query stability, soundness half: what a Query / Walk reports is stored, with
+    that value, at the moment of the report *)
+Theorem C10_query_stability_partial :
+  forall ops s i t t0 pre q acc fr v,
+    forallb quiet_op ops = true -> reach ops s ->
+    nth_error (thr s) i = Some t -> tpc t = PQRead t0 pre q acc fr ->
+    query_visits (get_cont (hp s) t0) q = Some v ->
+    absf (hp s) pre = Some v /\
+    (exists s', step s i = Some s' /\
+       exists t', nth_error (thr s') i = Some t' /\ tpc t' = PQVisit pre v acc ([] :: fr)).
+Proof. exact query_reports_present. Qed.
+Print Assumptions C10_query_stability_partial.
 
 (** the executable linearizability checker is sound (this is K_P) *)
 Theorem C10_lin_check_sound :
